@@ -805,15 +805,17 @@ def progress_reset(ctx: Ctx, rep: Report) -> None:
         g = ctx.cfg(f)
         tests = [
             t for t in g.nodes if t.kind == 'test'
-            and 'execute_list' in norm(t.stmt.test) and 'len(' in norm(
-                t.stmt.test)
+            and norm(t.stmt.test) in (
+                'execute_list', 'len(execute_list) > 0',
+                'len(execute_list) != 0', 'len(execute_list) >= 1',
+                'len(execute_list) == 0', '0 < len(execute_list)',
+                'bool(execute_list)')
         ]
         for t in tests:
             n += 1
             rep.count()
             rep.seen(f.qualname)
-            lab = 'true' if '> 0' in norm(t.stmt.test) or '!= 0' in norm(
-                t.stmt.test) else 'false'
+            lab = 'false' if '== 0' in norm(t.stmt.test) else 'true'
             start = [b for b, l in g.succ[t.id] if l == lab]
             resets = g.ids(lambda m: isinstance(m.stmt, ast.Assign) and (
                 m.kind == 'stmt') and norm(
